@@ -3,7 +3,7 @@ from symx.api import *
 
 PROPERTY = 'C17'
 LEVEL = 'other'
-FILES = ['mesonbuild/ast/printer.py', 'mesonbuild/rewriter.py', 'mesonbuild/mparser.py']
+FILES = ['mesonbuild/ast/printer.py', 'mesonbuild/rewriter.py', 'mesonbuild/mparser.py', 'mesonbuild/ast/interpreter.py', 'mesonbuild/ast/introspection.py']
 ENCODED = ['ast.printer.AstPrinter (all visit_*, precedence_level, maybe_parentheses, escape, post_process)', 'the real lexer/parser on both sides',
            'rewriter.Rewriter.apply_changes (line offsets, remove_node splice arithmetic, ordering of edits; file reads/writes replaced by an in-memory dict)']
 EXPLANATION = ('Symbolic execution of parse -> AstPrinter -> parse on statements whose expression shape is enumerated by the executor (all operator kinds, with and without explicit '
@@ -12,7 +12,7 @@ EXPLANATION = ('Symbolic execution of parse -> AstPrinter -> parse on statements
                'and a string body that are symbolic over ASCII 1..126 (minus CR): the result must be before[:start] + printed + before[end:] with every other byte unchanged.')
 ASSUMPTIONS = ['expression depth <= 2, string bodies <= 2/3 characters over {a, space, quote, backslash, n, newline, @}', 'file I/O of apply_changes replaced by an in-memory dict (open/os.path stubs)',
                'edits are applied to already located nodes (target discovery by the introspection interpreter is outside)', 'universal-newline reading removes CR']
-OUT = 'AstInterpreter / IntrospectionInterpreter data flow (needs an Environment and files), info JSON, project() default-options editing, multi-line strings with trailing whitespace before a newline (known finding)'
+OUT = 'info JSON formatting, targets made in foreach loops, absolute source paths, --skip-errors, multi-line strings with trailing whitespace before a newline (known finding); the real Rewriter / IntrospectionInterpreter run on scratch directories for target-edit, target-extra-files, target-add-rm, info-subdir and command-list'
 MANIFEST = dict(
     text='Bounded symbolic decision: for ALL expression shapes up to depth 2 and all string bodies within the bound, re-printing preserves the tree; for all preceding texts within the '
          'bound the splice touches exactly the edited construct. Also kwargs set/delete/add/remove and default-options set/delete through the real process_kwargs with symbolic values. Target discovery (IntrospectionInterpreter, pathlib) is outside.',
